@@ -1,3 +1,4 @@
+pub mod cpref;
 pub mod engine;
 pub mod findings;
 pub mod props;
